@@ -18,3 +18,8 @@ add("C05", "model_checking",
     "Worlds are built through the public datalog::World API from every rule template x owner x trusted set x fact base, all template pairs, and the full origin-assignment matrix for joins; the engine's final (origin set, fact) set must equal the reference least fixpoint exactly, for every insertion order of facts and rules and every explored iteration order of the hash-based stores (all rankings of small key universes, seeded orders beyond); query_rule / query_match / query_match_all are compared on the final world.",
     "R-dl fixpoint is the definition; hash order modelled as one global key ranking per execution (H1 seam, feature verif-hooks); bounded to <= 6 facts, <= 6 rules per world.",
     "DESIGN.md §3 C05")
+add("C06", "model_checking",
+    "exhaustive enumeration of the operator x type x type table and of all operation sequences up to a length bound, against a reference evaluator",
+    "Every unary/binary operator over a 23-value set (all types, i64 extremes, empty and nested collections), every closure-taking operator x closure body x parameter list, and every operation sequence (well-formed or not) up to length 5 (quick) / 6 (thorough) over a 28-symbol alphabet is evaluated by the real stack machine inside catch_unwind and by the reference evaluator R-expr (i128 arithmetic, explicit type table, lazy closures, shadowing rule); table cells are also run through AuthorizerBuilder + authorize().",
+    "R-expr is the definition; regex delegated to the regex crate on both sides; all/any over unordered sets with an erroring and a deciding element accepted either way.",
+    "DESIGN.md §3 C06")
